@@ -49,10 +49,32 @@ const (
 	// terminal.String(nil, false): a double-quoted string literal with Go escapes - the one stock terminal whose value
 	// is not a slice of the input (it is unquoted) and whose parser works on the file's bytes through Readf
 	OpStr
+	// one of the library's typed terminals (C = index into LitKinds): integer, float, bool, nil, char, time duration -
+	// each returns a node TYPE of its own with its own copy of the node methods - and word / regexp terminals
+	OpLit
 )
 
 var opNames = map[Op]string{OpSeqOf: "Seq", OpSeqTry: "SeqTry", OpSeqFirstOrAll: "SeqFOA", OpAny: "Any", OpChoice: "Choice",
 	OpRTrim: "RTrim", OpLTrim: "LTrim", OpSingle: "Single", OpSuppress: "SuppressError", OpSeqRetSingle: "SeqReturnSingle", OpSeqPickFirst: "SeqPickFirst", OpEnd: "End", OpOpt: "Opt", OpMany: "Many", OpMany1: "Many1", OpSepBy: "SepBy", OpSepBy1: "SepBy1"}
+
+// LitKind describes one typed terminal: its name, the token of its node, whether the node is a typed literal node (its
+// rendering carries the value) and the literals inputs are sampled from. The parsers are built in build.go.
+type LitKind struct {
+	Name, Token string
+	Typed       bool
+	Pool        []string
+}
+
+var LitKinds = []LitKind{
+	{"integer", "INTEGER", true, []string{"42", "-7", "0x1f", "0"}},
+	{"float", "FLOAT", true, []string{"1.5", "-0.25", "2.0e3"}},
+	{"bool", "BOOL", true, []string{"true", "false"}},
+	{"nil", "NIL", true, []string{"nil"}},
+	{"char", "CHAR", true, []string{"'x'", `'\n'`}},
+	{"duration", "TIME_DURATION", true, []string{"90s", "1h30m", "250ms"}},
+	{"word", "FOO", false, []string{"foo"}},
+	{"regexp", "RE", false, []string{"ab12", "x1"}},
+}
 
 // Expr is a grammar expression. ID is unique within a grammar.
 type Expr struct {
@@ -123,6 +145,8 @@ func (e *Expr) String() string {
 		return "mark"
 	case OpStr:
 		return "STR"
+	case OpLit:
+		return "LIT:" + LitKinds[e.C].Name
 	case OpRTrim, OpLTrim:
 		return fmt.Sprintf("%s(%s,ws%d)", opNames[e.Op], e.Kids[0], e.C)
 	}
@@ -236,7 +260,7 @@ func Token(op Op) string {
 // without consuming input" (over-approximation).
 func exprNullable(e *Expr, nl []bool) bool {
 	switch e.Op {
-	case OpRune, OpKw, OpStr:
+	case OpRune, OpKw, OpStr, OpLit:
 		return false
 	case OpEmpty, OpOpt, OpMany, OpSepBy, OpEnd, OpMark:
 		return true
@@ -524,7 +548,7 @@ func (g *Grammar) RefModelled() bool {
 				})
 				return
 			}
-			if e.Op > OpNT && e.Op != OpLTrim && e.Op != OpEnd && e.Op != OpKw && e.Op != OpMark && e.Op != OpStr && e.Op != OpSuppress {
+			if e.Op > OpNT && e.Op != OpLTrim && e.Op != OpEnd && e.Op != OpKw && e.Op != OpMark && e.Op != OpStr && e.Op != OpSuppress && e.Op != OpLit {
 				ok = false
 			}
 		})
